@@ -6,7 +6,12 @@ over the six-letter alphabet {1e-4, 1e-2, 0.5, 1, 3, 1e3} (so every permutation
 of every multiset, ties included) x Pt x noise x Es, plus boundary-seeking total
 powers (Pt exactly at / one part in 2^40 either side of every point where one
 more channel is switched on), plus a generic family of gain vectors of length
-1..12 whose irrational offsets are the only place the seed enters.
+1..12 whose irrational offsets are the only place the seed enters, plus
+ulp-level boundary members for lengths 2..16: Pt equal to / one ulp either side
+of each switch-on boundary, the boundary summed sequentially, by numpy's
+pairwise np.sum and exactly rounded (math.fsum) -- the inputs on which an
+implementation that sums the same numbers twice in different orders can
+disagree with itself.
 
 Relations checked on every evaluation (reference model written here):
   R1  shape / finiteness, input array not modified
@@ -37,7 +42,8 @@ ENGINE = "E1 exhaustive product enumerator"
 RULE = ("every ordered gain tuple of length 1..4 (thorough 1..5) over {1e-4,1e-2,0.5,1,3,1e3} "
         "x Pt{1e-3,0.3,1,10,1e3} x noise{1e-2,1,5} x Es{1,0.5,3}; plus for every multiset "
         "Pt at/just below/just above each switch-on boundary; plus generic gain vectors of "
-        "length 1..12. Each is run through doWF and compared with a reference water-filling, "
+        "length 1..12; plus gains 1..n, 0.1..0.1n (n<=13) and generic vectors of length 2..16 with Pt "
+        "within one ulp of every switch-on boundary (summed in 3 orders). Each is run through doWF and compared with a reference water-filling, "
         "a KKT certificate, the returned-level relation, every simplex-grid / pairwise-transfer "
         "competitor and the permuted run. Non-trivial: length>=2 and (gains not all equal or a "
         "channel switched off); distinct = (sorted gains, Pt, noise, Es)")
